@@ -5,6 +5,8 @@
 //	      dns.TypeToRR (fully populated by reflection), on an unknown-type record, a
 //	      registered private type and on whole messages (Msg.Copy and Msg.CopyTo), and
 //	      compares the real heap after each step with what the specification predicts.
+//	      Behaviours with the caller's Alias (cp := *m; one section slice assigned) and a
+//	      CopyTo INTO A LIVE OBJECT run on whole messages.
 //	heap record <out.ndjson> <episodes>
 //	      random operation sequences over random types; each event carries the observed
 //	      heap (region ids per backing store, content digests) for Trace_Heap.
@@ -166,12 +168,83 @@ func (o *msgObj) Pack() ([]byte, error) {
 	return append([]byte(nil), b...), nil
 }
 func (o *msgObj) Persist(slot int) {
-	if slot == 2 && len(o.m.Answer) > 0 {
-		o.m.Answer[0].Header().Ttl ^= 2
-		return
+	if slot == 2 {
+		if sec, q := nestedOf(o.m); sec != nil {
+			(*sec)[0].Header().Ttl ^= 2
+			return
+		} else if q {
+			o.m.Question[0].Qtype ^= 1
+			return
+		}
 	}
 	o.m.Id ^= 1
 }
+
+// nestedOf: the nested store of a message that slot 2 of the specification's objects stands
+// for -- the first record of its first non-empty section (an OPT, whose TTL is no TTL, only if
+// there is nothing else), or its first question when it has no records.
+func nestedOf(m *dns.Msg) (sec *[]dns.RR, question bool) {
+	var opt *[]dns.RR
+	for _, s := range []*[]dns.RR{&m.Answer, &m.Ns, &m.Extra} {
+		if len(*s) == 0 {
+			continue
+		}
+		if (*s)[0].Header().Rrtype == dns.TypeOPT {
+			if opt == nil {
+				opt = s
+			}
+			continue
+		}
+		return s, false
+	}
+	if len(m.Question) > 0 {
+		return nil, true
+	}
+	return opt, false
+}
+
+// Alias is the CALLER's shallow copy of the message: "all" -- cp := *m, every section and record
+// shared; "one" -- a message of its own (filled by an earlier CopyTo) to which the caller then
+// assigned one section slice of m.  nil: the message has nothing to share.
+func (o *msgObj) Alias(how string) object {
+	sec, q := nestedOf(o.m)
+	if sec == nil && !q {
+		return nil
+	}
+	if how == "all" {
+		cp := *o.m
+		return &msgObj{&cp, o.copyTo}
+	}
+	t := new(dns.Msg)
+	o.m.CopyTo(t)
+	switch {
+	case q:
+		t.Question = o.m.Question
+	case sec == &o.m.Answer:
+		t.Answer = o.m.Answer
+	case sec == &o.m.Ns:
+		t.Ns = o.m.Ns
+	default:
+		t.Extra = o.m.Extra
+	}
+	return &msgObj{t, o.copyTo}
+}
+
+// CopyInto: Msg.CopyTo into the live message t.
+func (o *msgObj) CopyInto(t object) bool {
+	tm, ok := t.(*msgObj)
+	if !ok {
+		return false
+	}
+	return o.m.CopyTo(tm.m) == tm.m
+}
+
+// aliaser: the objects a caller can alias and that can be copied INTO a live object (messages).
+type aliaser interface {
+	Alias(how string) object
+	CopyInto(t object) bool
+}
+
 func (o *msgObj) RO(op string, other object, sum *hx.Summary, cs string) bool {
 	m := o.m
 	switch op {
@@ -443,6 +516,7 @@ type step struct {
 	X     int     `json:"x"`
 	Y     int     `json:"y"`
 	Slot  int     `json:"slot"`
+	How   string  `json:"how"` // alias: "all" (shallow struct copy) | "one" (one section assigned)
 	Live  []int   `json:"live"`
 	Regs  [][]int `json:"regs"`
 	Vals  [][]int `json:"vals"`
@@ -527,8 +601,20 @@ func (r *runner) episode(tc *tcase, v *vector) {
 			}
 			objs[s.Y] = o
 			how[s.Y] = "unpack"
+		case "alias":
+			a := objs[s.X].(aliaser).Alias(s.How)
+			if a == nil {
+				hx.Die("case %s has nothing to alias", tc.name)
+			}
+			objs[s.Y] = a
+			how[s.Y] = "alias"
+		case "copyto":
+			if !objs[s.X].(aliaser).CopyInto(objs[s.Y]) {
+				hx.Die("case %s: CopyTo did not return its target", tc.name)
+			}
+			how[s.Y] = "copyto"
 		case "mutate":
-			r.probe(tc, v, k, objs, snaps, live, s.X, buf, bufSaved, how)
+			r.probe(tc, v, k, objs, snaps, live, s.X, buf, bufSaved, how, s)
 			objs[s.X].Persist(s.Slot)
 		case "scribble":
 			flip(buf)
@@ -557,14 +643,25 @@ func (r *runner) episode(tc *tcase, v *vector) {
 		}
 		// 1. values: exactly the objects the specification lets change did change
 		for _, o := range live {
+			if s.Op == "copyto" && o == s.Y {
+				continue // the target: its value is compared with the source's below, whatever it was before
+			}
 			changed := now[o].Exact() != snaps[o].Exact()
 			exp := has(s.Chg, o)
 			if changed && !exp {
 				name, path := rw.FirstDiff(snaps[o], now[o])
 				var key string
 				switch s.Op {
+				case "copyto":
+					key = "copyto/changes-third-object:" + name
+					if o == s.X {
+						key = "copyto/changes-source:" + name
+					}
 				case "mutate":
 					key = "copy/" + name + "-shared"
+					if how[o] == "copyto" || how[s.X] == "copyto" {
+						key = "copyto/" + name + "-shared"
+					}
 				case "scribble":
 					key = "unpack/" + name + "-aliases-buffer"
 				case "ro":
@@ -616,7 +713,14 @@ func (r *runner) episode(tc *tcase, v *vector) {
 				}
 				for _, pr := range rw.Overlap(now[a], now[b]) {
 					ia, ib := pr[0], pr[1]
-					key := how[b] + "/" + now[b].Regions[ib].Name + "-shared"
+					org := how[b] // the library operation the younger object comes from (an alias is the caller's doing)
+					if org == "alias" && how[a] != "built" && how[a] != "alias" {
+						org = how[a]
+					}
+					if how[a] == "copyto" {
+						org = "copyto"
+					}
+					key := org + "/" + now[b].Regions[ib].Name + "-shared"
 					r.mis(key, fmt.Sprintf("%s: objects %d (%s) and %d (%s) share memory: %s / %s", tc.name, a, how[a], b, how[b],
 						now[a].Regions[ia].Paths[0], now[b].Regions[ib].Paths[0]), tc, v, k)
 				}
@@ -630,11 +734,11 @@ func (r *runner) episode(tc *tcase, v *vector) {
 // probe performs a Mutate of EVERY writable cell of object x (scalars, strings, slice
 // elements, slice headers, pointers, interfaces, map entries), one at a time, and looks
 // at every other object and at the buffer after each; the cell is then restored.
-func (r *runner) probe(tc *tcase, v *vector, k int, objs map[int]object, snaps map[int]*rw.Snap, live []int, x int, buf, bufSaved []byte, how map[int]string) {
+func (r *runner) probe(tc *tcase, v *vector, k int, objs map[int]object, snaps map[int]*rw.Snap, live []int, x int, buf, bufSaved []byte, how map[int]string, st *step) {
 	sig := tc.name + "|" + strconv.Itoa(x)
 	for _, s := range v.Ops[:k] { // the aliasing structure depends on the creation history only
-		if s.Op == "copy" || s.Op == "unpack" {
-			sig += fmt.Sprintf("|%s%d>%d", s.Op, s.X, s.Y)
+		if s.Op == "copy" || s.Op == "unpack" || s.Op == "alias" || s.Op == "copyto" {
+			sig += fmt.Sprintf("|%s%s%d>%d", s.Op, s.How, s.X, s.Y)
 		}
 	}
 	if r.probed[sig] {
@@ -656,14 +760,17 @@ func (r *runner) probe(tc *tcase, v *vector, k int, objs map[int]object, snaps m
 		revert := c.Mutate()
 		r.sum.Evaluations++
 		for _, y := range live {
-			if y == x {
-				continue
+			if y == x || !disjointInts(st.Regs[x-1], st.Regs[y-1]) {
+				continue // (an object the caller made share memory with x: the specification expects the write to show)
 			}
 			if got := rw.Walk(objs[y].Root()); got.Exact() != snaps[y].Exact() {
 				name, path := rw.FirstDiff(snaps[y], got)
 				pre := "copy/"
 				if how[x] == "unpack" && how[y] == "unpack" {
 					pre = "unpack/"
+				}
+				if how[x] == "copyto" || how[y] == "copyto" {
+					pre = "copyto/"
 				}
 				r.mis(pre+name+"-shared", fmt.Sprintf("%s: writing %s of object %d (%s) is visible in object %d (%s) at %s", tc.name, c.Path, x, how[x], y, how[y], path), tc, v, k)
 			}
@@ -696,12 +803,22 @@ func replay(path string, shard, nshards int, only string) {
 		if ci%nshards != shard {
 			continue
 		}
+		var extOK *bool
 		for vi, v := range vecs {
 			if only != "" && tc.name != only {
 				continue
 			}
 			if v.Case != "" && v.Case != tc.name {
 				continue
+			}
+			if isExt(v) {
+				if extOK == nil {
+					ok := extCase(tc, v.Case != "")
+					extOK = &ok
+				}
+				if !*extOK {
+					continue
+				}
 			}
 			if p := hx.Catch(func() { r.episode(tc, v) }); p != "" {
 				sum.Mis("panic:"+tc.name, "panic: "+p, map[string]interface{}{"case": tc.name, "ops": v.Ops})
@@ -715,6 +832,26 @@ func replay(path string, shard, nshards int, only string) {
 	sum.Nontrivial = len(r.seen)
 	sum.Note("episodes", n)
 	sum.Print()
+}
+
+// isExt: the behaviour has the caller's Alias or a CopyTo into a live object.
+func isExt(v *vector) bool {
+	for i := range v.Ops {
+		if v.Ops[i].Op == "alias" || v.Ops[i].Op == "copyto" {
+			return true
+		}
+	}
+	return false
+}
+
+// extCase: such behaviours run on whole messages that have a nested store to share -- the small
+// shapes, the used-target case, and (thorough tier, replay files) the full-size message.
+func extCase(tc *tcase, forced bool) bool {
+	a, ok := tc.build().(aliaser)
+	if !ok || a.Alias("all") == nil {
+		return false
+	}
+	return forced || hx.Thorough() || strings.HasPrefix(tc.name, "Msg/small/") || tc.name == "Msg/CopyTo/no-question"
 }
 
 // valueParts: the stores that hold a value (empty slices do not).
@@ -890,7 +1027,31 @@ func record(out string, episodes int) {
 	cs = append(append(cs[:len(cs)-12], small, smallTo), shapes...) // the full-size messages and the value-equality case are for the replay tier
 	ro := []string{"Pack", "Len", "String", "IsDuplicate", "Copy", "Sign", "Verify"}
 	seen := map[string]bool{}
-	var keep [][]byte // scribbled and replaced buffers stay referenced: their addresses must not be reused within an episode
+	var keep [][]byte     // scribbled and replaced buffers stay referenced: their addresses must not be reused within an episode
+	var keepMsg []dns.Msg // likewise what a CopyTo target held before: its stores have region ids
+	// who shares memory with whom by the recorder's own aliasing (conservative: an alias of x is taken
+	// to share with everything x shares with).  CopyTo goes into targets that share with nobody but --
+	// possibly -- the source: what a CopyTo that uses the target's storage again does to THIRD objects
+	// aliased to the target is AMBIG (Heap!CopyToDisc).
+	partners := map[int]map[int]bool{}
+	mayCopyInto := func(src, dst int) bool {
+		for o := range partners[dst] {
+			if o != src {
+				return false
+			}
+		}
+		return true
+	}
+	copyInto := func(objs map[int]object, src, dst int) {
+		if t, ok := objs[dst].(*msgObj); ok {
+			keepMsg = append(keepMsg, *t.m)
+		}
+		objs[src].(aliaser).CopyInto(objs[dst])
+		for o := range partners[dst] {
+			delete(partners[o], dst)
+		}
+		delete(partners, dst)
+	}
 	for ep := 0; ep < episodes; ep++ {
 		tc := &cs[rng.Intn(len(cs))]
 		// the interesting types more often
@@ -904,7 +1065,8 @@ func record(out string, episodes int) {
 			}
 		}
 		rc.table, rc.nextReg = nil, 0
-		keep = keep[:0]
+		keep, keepMsg = keep[:0], keepMsg[:0]
+		partners = map[int]map[int]bool{}
 		objs := map[int]object{1: tc.build()}
 		buf := tc.wireInput()
 		valid := true
@@ -919,8 +1081,51 @@ func record(out string, episodes int) {
 			x := ids[rng.Intn(len(ids))]
 			next := len(objs) + 1
 			c := rng.Intn(10)
+			al, canAlias := objs[x].(aliaser)
+			if canAlias && rng.Intn(6) == 0 {
+				c = 10 + rng.Intn(2) // the caller's shallow copy; CopyTo into a live message
+			}
 			sum.Evaluations++
 			switch {
+			case c == 10 && next <= 6:
+				a := al.Alias([]string{"all", "one"}[rng.Intn(2)])
+				if a == nil {
+					continue
+				}
+				objs[next] = a
+				partners[next] = map[int]bool{x: true}
+				for o := range partners[x] {
+					partners[next][o] = true
+					partners[o][next] = true
+				}
+				if partners[x] == nil {
+					partners[x] = map[int]bool{}
+				}
+				partners[x][next] = true
+				rc.emit(&event{Ev: "alias", T: tc.name, X: x, Y: next}, objs, buf)
+				seen[tc.name+"/alias"] = true
+				if rng.Intn(2) == 0 { // ... and at once a CopyTo between the two, in either direction
+					src, dst := x, next
+					if rng.Intn(2) == 0 {
+						src, dst = next, x
+					}
+					if mayCopyInto(src, dst) {
+						copyInto(objs, src, dst)
+						rc.emit(&event{Ev: "copyto", T: tc.name, X: src, Y: dst}, objs, buf)
+						seen[tc.name+"/copyto-aliased"] = true
+					}
+				}
+			case c >= 10:
+				if len(ids) < 2 {
+					continue
+				}
+				y := ids[rng.Intn(len(ids))]
+				if y == x || !mayCopyInto(x, y) {
+					continue
+				}
+				copyInto(objs, x, y)
+				rc.emit(&event{Ev: "copyto", T: tc.name, X: x, Y: y}, objs, buf)
+				seen[tc.name+"/copyto"] = true
 			case c < 2 && next <= 6:
 				objs[next] = objs[x].Copy()
 				rc.emit(&event{Ev: "copy", T: tc.name, X: x, Y: next}, objs, buf)
